@@ -15,6 +15,8 @@
 //                                       is really connected over loopback so that its answers are read from the socket),
 //                                       w = through the socket (server: one segment at a time, waiting until the I/O thread has
 //                                       handed it over; client: short pauses)
+//                                       g = (server) all bytes in the same write as the upgrade request: the HTTP layer finds them
+//                                       behind the request and hands them over after the 101 (http_server.hpp buffer-drain)
 //   S <s|c> <max> <steps>               close-handshake script, steps comma separated:                 -> {"e":"Script",...}
 //                                       T B P C (application sendText/sendBinary/sendPing/sendClose), rC rT rP (inbound
 //                                       close/text/ping), rTe (inbound text whose message callback sends a text), cbT (arm: the
@@ -243,8 +245,10 @@ static void finishRun(vf::Ev &ev, Obs &o, const AllocScope &as)
 
 static std::string infra(const std::string &why) { return vf::Ev("Infra").str("why", why).done() + "\n"; }
 
-static std::string runServer(bool wire, std::size_t maxMsg, const std::vector<std::size_t> &segs, const Bytes &data)
+static std::string runServer(char mode, std::size_t maxMsg, const std::vector<std::size_t> &segsIn, const Bytes &data)
 {
+  const bool wire = mode == 'w', glued = mode == 'g';
+  std::vector<std::size_t> segs = segsIn;
   ServerRig &rg = rig();
   rg.srv->setMaxFrameSize(maxMsg);
   rg.onText = nullptr;
@@ -252,14 +256,30 @@ static std::string runServer(bool wire, std::size_t maxMsg, const std::vector<st
   SessionId sid = 0;
   bool acc = false;
   std::string why;
-  int fd = rg.open(sid, acc, why);
-  if (fd < 0) return infra("server open: " + why);
   Obs o;
-  setObs(&o);
-  std::size_t maxSeg = 0;
+  Bytes rb;
+  setObs(&o); // before the connection exists: in glued mode the messages are delivered during the upgrade
+  unsigned long long done0 = rg.srv->doneBytes.load();
   int chunks0 = rg.srv->chunks.load();
+  int fd = glued ? rg.open(sid, acc, why, &data, &rb) : rg.open(sid, acc, why);
+  if (fd < 0)
+  {
+    setObs(nullptr);
+    return infra("server open: " + why);
+  }
+  std::size_t maxSeg = 0;
   AllocScope as;
   std::size_t off = 0;
+  if (glued)
+  {
+    // everything went out with the upgrade request; wait until the upgraded handler has been given all of it (if the
+    // kernel or the server split it so that this never happens the run is inconclusive: "to")
+    segs.clear();
+    maxSeg = data.size();
+    double t0 = vf::nowSec();
+    while (rg.srv->doneBytes.load() - done0 < data.size() && vf::nowSec() - t0 < 3.0) usleep(200);
+    if (rg.srv->doneBytes.load() - done0 < data.size()) o.timeout = true;
+  }
   for (std::size_t k : segs)
   {
     maxSeg = std::max(maxSeg, k);
@@ -298,10 +318,9 @@ static std::string runServer(bool wire, std::size_t maxMsg, const std::vector<st
   (void)peak;
   (void)alloc;
   rg.srv->rawOut(sid, sentinelFrame(10));
-  Bytes rb;
-  drain(fd, rb, o);
+  drain(fd, rb, o, glued && o.timeout ? 500 : 20000);
   vf::Ev ev("Run");
-  ev.str("ep", "s").str("feed", wire ? "w" : "d").i("max", (long long)cap30(maxMsg)).i("n", (long long)data.size()).i("segs", (long long)segs.size());
+  ev.str("ep", "s").str("feed", wire ? "w" : glued ? "g" : "d").i("max", (long long)cap30(maxMsg)).i("n", (long long)data.size()).i("segs", (long long)segs.size());
   ev.i("maxseg", (long long)maxSeg).b("acc", acc).b("lim", true).i("chunks", rg.srv->chunks.load() - chunks0);
   finishRun(ev, o, as);
   setObs(nullptr);
@@ -555,7 +574,7 @@ static std::string doLine(const std::string &ln)
     Bytes data = w[5] == "=" ? g_data[w[1]] : expandData(w[5]);
     auto segs = expandSegs(w[4], data.size());
     std::size_t mx = strtoull(w[3].c_str(), nullptr, 10);
-    return w[1] == "s" ? runServer(w[2] == "w", mx, segs, data) : runClient(w[2] == "w", mx, segs, data);
+    return w[1] == "s" ? runServer(w[2][0], mx, segs, data) : runClient(w[2] == "w", mx, segs, data);
   }
   if (c == "S" && w.size() >= 4) return runScript(w[1] == "s", strtoull(w[2].c_str(), nullptr, 10), w[3]);
   return infra("bad case line: " + ln.substr(0, 40));
